@@ -24,6 +24,7 @@ type Config struct {
 	LongGaps         bool // allow gaps of seconds to minutes between packets (scenarios longer than the importer's 5 min idle timeout)
 	MinPackets       int  // keep adding conversations (beyond MaxConversations) until the scenario has this many packets
 	OverlapPercent   int  // share of scenarios whose capture files overlap in time (several sensors), see layoutSensors
+	EqualStampPercent int // share of packet pairs of different conversations that get the same timestamp
 	SlowPercent      int  // share of scenarios in which about a quarter of the gaps between packets are 1-4 minutes (flows lasting longer than the importer's 5 min timeouts without ever idling that long); needs LongGaps
 
 	// AvoidSeqWrapDisorder steers away from TCP connections that combine sequence
@@ -40,7 +41,7 @@ type Config struct {
 
 // DefaultConfig is the space of DESIGN.md §4.2 / C05.
 func DefaultConfig() Config {
-	return Config{MinConversations: 1, MaxConversations: 8, MaxFlights: 6, MaxFlightBytes: 30000, MaxDatagrams: 10, MaxCaptures: 5, LongGaps: true, OverlapPercent: 38, SlowPercent: 30}
+	return Config{MinConversations: 1, MaxConversations: 8, MaxFlights: 6, MaxFlightBytes: 30000, MaxDatagrams: 10, MaxCaptures: 5, LongGaps: true, OverlapPercent: 38, SlowPercent: 30, EqualStampPercent: 6}
 }
 
 // LargeConfig yields scenarios of at least minPackets packets (real-size captures).
@@ -690,6 +691,12 @@ func stamp(t *rapid.T, s *Scenario, cfg Config) {
 			}
 			if d < 1 {
 				d = 1
+			}
+			// two packets of different conversations may carry the same capture timestamp (a burst below the clock's resolution)
+			// (never two packets of one conversation: their order would no longer be defined by the capture)
+			if cfg.EqualStampPercent > 0 && s.Packets[gi-1].Conv != p.Conv && last[p.Conv] < now && percent(t, "equal timestamp", cfg.EqualStampPercent) {
+				d = 0
+				s.EqualStamps++
 			}
 			now += d
 		}
